@@ -10,9 +10,11 @@ modes
                                             log, limits, infinities, Skolem terms ...) for the structural clauses
   examples <out.ndjson>                     every recorded calculation step of integral/examples/*.json is re-executed from the
                                             recorded predecessor in the context compstate builds for it
+  event    <in.ndjson> <out.ndjson>         recorded events (replay files) are re-executed from their recorded inputs
 Events (no verdict is computed here, projection only):
-  kind "rule": {rule, ps, pe, loc, conds, e (projected BEFORE the call), outcome ok|exc, exc, r, printed, rpo, rp}
-  kind "norm": {e, conds, outcome, n1 = normalize(e), n2 = normalize(n1)}
+  kind "rule": {rule, base (innermost rule name), ps, pe, conds, e (projected BEFORE the call), outcome ok|exc|build, exc, r,
+                printed, rpo, rp; rec = the stored result for example steps}
+  kind "norm": {e, conds, outcome, n1 = normalize(e), n2 = normalize(n1), n3 = normalize(n2)}
   kind "pp"  : {e, printed, rpo, rp = parse_expr(str(e))}
 Expressions are projected by the structural codec `enc` below (raw fields only; never Expr.__eq__, never the printer):
   ["var",x] ["const",n,d] ["bigconst",sn,sd] ["op",sym,a,b] ["neg",a] ["fun",f,[args]] ["int",x,lo,hi,b] ["iint",x,b,[sk]]
@@ -211,7 +213,7 @@ def base_ctx():
 
 def apply_rule(out, src, name, ps, pe_j, e_j, conds_j, extra=None):
     """Build the real objects from projections, apply the real rule, log."""
-    ev = {"kind": "rule", "src": src, "rule": name, "ps": list(ps), "pe": pe_j, "conds": conds_j, "e": e_j}
+    ev = {"kind": "rule", "src": src, "rule": name, "base": name.split(":")[-1], "ps": list(ps), "pe": pe_j, "conds": conds_j, "e": e_j}
     if extra:
         ev.update(extra)
     try:
@@ -272,12 +274,13 @@ def norm_event(out, src, e_j, conds_j):
         ev["key"] = "norm:%s%s" % (ev["text"][:240], (" if " + ",".join(_safe_str(dec(c)) for c in conds_j)) if conds_j else "")
         n1 = quiet(poly.normalize, e, conds)
         n2 = quiet(poly.normalize, n1, conds)
-        ev["outcome"], ev["exc"], ev["n1"], ev["n2"] = "ok", "", enc(n1), enc(n2)
+        n3 = quiet(poly.normalize, n2, conds)
+        ev["outcome"], ev["exc"], ev["n1"], ev["n2"], ev["n3"] = "ok", "", enc(n1), enc(n2), enc(n3)
         ev["t1"], ev["t2"] = _safe_str(n1)[:500], _safe_str(n2)[:500]
     except RecursionError:
-        ev.update({"outcome": "exc", "exc": "RecursionError", "n1": NONE, "n2": NONE})
+        ev.update({"outcome": "exc", "exc": "RecursionError", "n1": NONE, "n2": NONE, "n3": NONE})
     except Exception as ex:
-        ev.update({"outcome": "exc", "exc": type(ex).__name__, "n1": NONE, "n2": NONE})
+        ev.update({"outcome": "exc", "exc": type(ex).__name__, "n1": NONE, "n2": NONE, "n3": NONE})
     ev.setdefault("key", "norm:" + json.dumps(e_j, separators=(",", ":"))[:240])
     out.emit(ev)
 
@@ -300,7 +303,7 @@ def mode_replay(vec, outp):
         v = json.loads(ln)
         conds = v.get("conds", [])
         ev = apply_rule(out, "tlc", v["rule"], v.get("ps", []), v.get("pe", []), v["e"], conds, {"step": v.get("step", 0)})
-        for j in [v["e"]] + ([ev["r"]] if ev and ev.get("outcome") == "ok" else []):
+        for j in ([v["e"]] if v.get("step", 0) == 0 else []) + ([ev["r"]] if ev and ev.get("outcome") == "ok" else []):
             k = json.dumps([j, conds])
             if k not in seen_norm:
                 seen_norm.add(k)
@@ -435,7 +438,10 @@ class Gen:
         sub = lambda: self.anyexpr(depth - 1, vs)
         k = r.random()
         if k < 0.40:
-            return E.Op(r.choice(["+", "-", "*", "/", "^", "+", "-", "*"]), sub(), sub())
+            o, a, b = r.choice(["+", "-", "*", "/", "^", "+", "-", "*"]), sub(), sub()
+            if o == "/" and b.ty == E.CONST and b.val == 0:
+                b = E.Const(7)
+            return E.Op(o, a, b)
         if k < 0.48:
             return E.Op("-", sub())
         if k < 0.62:
@@ -452,9 +458,8 @@ class Gen:
             return E.EvalAt(r.choice(vs), sub(), sub(), sub())
         if k < 0.93:
             return E.Summation(r.choice(["k", "n"]), sub(), sub(), sub())
-        if k < 0.98:
-            return E.Limit(r.choice(vs), sub(), sub(), r.choice([None, None, "+", "-"]))
-        return E.Op(r.choice(["=", "<", "<=", ">", ">=", "!="]), sub(), sub())
+        lim = sub()
+        return E.Limit(r.choice(vs), lim, sub(), None if lim.ty == E.INF else r.choice([None, None, "+", "-"]))
 
 
 def linear_in(rnd, x):
@@ -528,10 +533,66 @@ def ibp_instance(rnd, g, params):
     return e, u, v
 
 
+DIRECTED = [
+    # (rule, ps, pe, e, conds): side conditions that the property names (monotonic substitution, zero denominators, bound order)
+    ("Substitution", ["u"], ["x ^ 2"], "INT x:[-1,1]. x ^ 2", []),
+    ("Substitution", ["u"], ["x ^ 2"], "INT x:[-2,2]. x ^ 4 + 1", []),
+    ("Substitution", ["u"], ["x ^ 2"], "INT x:[0,2]. x ^ 2", []),
+    ("Substitution", ["u"], ["x ^ 2"], "INT x:[-2,0]. x ^ 3", []),
+    ("Substitution", ["u"], ["x ^ 2 + 1"], "INT x:[-1,2]. x * (x ^ 2 + 1) ^ 2", []),
+    ("Substitution", ["u"], ["(x - 1) ^ 2"], "INT x:[0,2]. (x - 1) ^ 2", []),
+    ("Substitution", ["u"], ["x ^ 3"], "INT x:[-1,2]. x ^ 2 * (x ^ 3 + 1)", []),
+    ("Substitution", ["u"], ["a * x"], "INT x:[0,1]. a * x + 1", ["a != 0"]),
+    ("Substitution", ["u"], ["a * x"], "INT x:[0,1]. a * x + 1", ["a < 0"]),
+    ("Substitution", ["u"], ["1 - x"], "INT x:[0,a]. x * (1 - x)", []),
+    ("SubstitutionInverse", ["u"], ["u ^ 2"], "INT x:[0,4]. x + 1", []),
+    ("SubstitutionInverse", ["u"], ["2 * u - 1"], "INT x:[a,3]. x ^ 2", []),
+    ("SplitRegion", [], ["0"], "INT x:[-1,2]. x ^ 3", []),
+    ("SplitRegion", [], ["a"], "INT x:[0,1]. x ^ 2 + a", []),
+    ("FullSimplify", [], [], "INT x:[a,a]. x ^ 2", []),
+    ("FullSimplify", [], [], "INT x:[2,-1]. x ^ 2 + 1", []),
+    ("FullSimplify", [], [], "[x ^ 3 / 3 + a * x]_x=a,2 * a", []),
+    ("FullSimplify", [], [], "x ^ 2 / x + a / a", []),
+    ("FullSimplify", [], [], "D x. x ^ 3 / (a + 1)", []),
+    ("FullSimplify", [], [], "D a. INT x:[0,a]. a * x ^ 2", []),
+    ("FullSimplify", [], [], "INT x:[0,1]. D x. x ^ 2 + a * x", []),
+    ("FullSimplify", [], [], "SUM(k, 0, 3, (-1) ^ (2 * k) * k ^ 2)", []),
+    ("FullSimplify", [], [], "(x + 1) ^ 2 - (x - 1) ^ 2", []),
+    ("Linearity", [], [], "INT x:[0,1]. a * x / (a + 1) - 2 * x ^ 2 / 3", ["a > 0"]),
+    ("Linearity", [], [], "INT x:[0,1]. -(2 * x) + x / 2", []),
+    ("DefiniteIntegralIdentity", [], [], "INT x:[1,2]. 3 * x ^ 2 + x ^ (-2)", []),
+    ("DefiniteIntegralIdentity", [], [], "INT x:[a,b]. x ^ 3 - x", []),
+    ("IndefiniteIntegralIdentity", [], [], "INT x. 3 * x ^ 2 + 2 * x + 1", []),
+    ("IntegrationByParts", [], ["x", "x ^ 2 / 2"], "INT x. x * x", []),
+    ("DerivIntExchange", [], [], "D a. INT x:[0,1]. a ^ 2 * x", []),
+    ("IntSumExchange", [], [], "INT x:[0,1]. SUM(k, 0, 2, x ^ k)", []),
+    ("Sub:SimplifyPower", [], [], "(x ^ 2) ^ 3 + (-x) ^ 2 + (-a - x) ^ 3", []),
+    ("Sub:SimplifyPower", [], [], "(1 / x ^ 2) ^ 2 + 2 ^ (a + 1)", ["x != 0"]),
+    ("Equation", [], ["(x + 1) ^ 2", "x ^ 2 + 2 * x + 1"], "INT x:[0,1]. (x + 1) ^ 2", []),
+    ("Equation", [], ["x ^ 2 - 1", "(x - 1) * (x + 1)"], "INT x:[0,a]. x ^ 2 - 1", []),
+    ("IntegrateByEquation", [], ["INT x:[0,1]. x ^ 2"], "1 - 2 * (INT x:[0,1]. x ^ 2)", []),
+]
+
+
+def mode_directed(out):
+    for name, ps, pes, es, cs in DIRECTED:
+        try:
+            e_j = enc(quiet(parser.parse_expr, es))
+            pe_j = [enc(quiet(parser.parse_expr, p)) for p in pes]
+            c_j = [enc(quiet(parser.parse_expr, c)) for c in cs]
+        except Exception:
+            continue
+        ev = apply_rule(out, "directed", name, ps, pe_j, e_j, c_j)
+        norm_event(out, "directed", e_j, c_j)
+        if ev and ev.get("outcome") == "ok":
+            norm_event(out, "directed", ev["r"], c_j)
+
+
 def mode_rand(outp, n, seed):
     rnd = random.Random(seed * 7919 + 19)
     g = Gen(rnd)
     out = Out(outp)
+    mode_directed(out)
     for i in range(n):
         params = rnd.choice([[], [], ["a"], ["a"], ["a", "b"]])
         conds = []
@@ -552,6 +613,10 @@ def mode_rand(outp, n, seed):
         cur_j = e_j
         for step in range(rnd.choice([1, 1, 2, 3])):
             name, ps, pe = rnd.choice(cands)
+            if step == 0 and e.ty == E.DERIV and rnd.random() < 0.7:
+                name, ps, pe = "DerivativeSimplify", [], []
+            elif rnd.random() < 0.15:
+                name, ps, pe = "FullSimplify", [], []
             ev = apply_rule(out, "rand", name, ps, [enc(p) for p in pe], cur_j, conds, {"step": step})
             if not ev or ev.get("outcome") != "ok":
                 break
@@ -565,6 +630,8 @@ def mode_rand(outp, n, seed):
     # structural clauses on all expression forms
     for i in range(n):
         e = g.anyexpr(rnd.choice([1, 2, 2, 3, 3, 4]))
+        if i % 10 == 9:      # a comparison (only at the top: conditions and goals are such expressions)
+            e = E.Op(rnd.choice(["=", "<", "<=", ">", ">=", "!="]), e, g.anyexpr(rnd.choice([1, 2])))
         pp_event(out, "rand", e)
         if i % 2 == 0:
             norm_event(out, "rand-any", enc(e), [])
@@ -616,8 +683,9 @@ def rule_desc(rule):
     return d.get("name", type(rule).__name__), {k: v for k, v in d.items() if k not in ("str", "latex_str", "name")}
 
 
-def mode_examples(outp):
-    out = Out(outp)
+def mode_examples(outp, only=None, out=None):
+    own = out is None
+    out = out or Out(outp)
     exdir = os.path.join(os.path.dirname(compstate.__file__), "examples")
     books = book_of(exdir)
     stats = {"files": 0, "files_failed": 0, "steps": 0}
@@ -625,6 +693,8 @@ def mode_examples(outp):
         if not fn.endswith(".json") or fn in ("index.json",):
             continue
         name = fn[:-5]
+        if only is not None and name != only:
+            continue
         try:
             data = json.load(open(os.path.join(exdir, fn), encoding="utf-8"))
         except Exception:
@@ -661,7 +731,7 @@ def mode_examples(outp):
                     except Exception:
                         conds_j = []
                     e_j = enc(prev)
-                    ev = {"kind": "rule", "src": "ex:" + name, "rule": rname, "ps": [json.dumps(rparams, sort_keys=True)[:300]], "pe": [],
+                    ev = {"kind": "rule", "src": "ex:" + name, "rule": rname, "base": rname, "ps": [json.dumps(rparams, sort_keys=True)[:300]], "pe": [],
                           "conds": conds_j, "e": e_j, "text": _safe_str(prev)[:500], "rec": enc(step.res),
                           "key": "ex:%s:%d.%d.%d:%s" % (name, idx, ci, si, rname)}
                     # parse_item made a fresh Rule object for this step; it is evaluated exactly once, on a fresh copy of the
@@ -669,6 +739,38 @@ def mode_examples(outp):
                     run_rule(out, ev, step.rule, dec_or_same(prev), ctx)
                     prev = step.res
     out.emit({"kind": "exstats", "src": "ex", "key": "exstats", "stats": [stats["files"], stats["files_failed"], stats["steps"]]})
+    if own:
+        out.close()
+
+
+# ------------------------------------------------------------------------------------------------ re-execution of recorded events
+def mode_event(inp, outp):
+    """Re-run recorded events (replay files) against the current code from their recorded inputs."""
+    out = Out(outp)
+    for ln in open(inp):
+        ln = ln.strip()
+        if not ln:
+            continue
+        e = json.loads(ln)
+        if e["kind"] == "rule" and str(e.get("src", "")).startswith("ex:"):
+            tmp = Out(outp + ".ex")
+            mode_examples(None, only=e["src"][3:], out=tmp)
+            tmp.close()
+            for l2 in open(outp + ".ex"):
+                e2 = json.loads(l2)
+                if e2.get("key") == e["key"]:
+                    out.emit(e2)
+        elif e["kind"] == "rule":
+            apply_rule(out, e.get("src", "replay"), e["rule"], e["ps"], e["pe"], e["e"], e["conds"])
+        elif e["kind"] == "norm":
+            norm_event(out, e.get("src", "replay"), e["e"], e["conds"])
+        elif e["kind"] == "pp":
+            try:
+                pp_event(out, e.get("src", "replay"), dec(e["e"]))
+            except Exception:
+                out.emit(e)
+        else:
+            out.emit(e)
     out.close()
 
 
@@ -688,6 +790,8 @@ def main(argv):
         mode_rand(argv[1], int(argv[2]), int(argv[3]))
     elif mode == "examples":
         mode_examples(argv[1])
+    elif mode == "event":
+        mode_event(argv[1], argv[2])
     else:
         raise SystemExit("unknown mode " + mode)
 
